@@ -4,7 +4,7 @@
 //! `context.run_after`, `context.fail`, `context.stop`). Every observation is appended to a trace through
 //! `context.effect` closures.
 
-use crate::ast::{Obs, Src, Tables, HK, P};
+use crate::ast::{arm_of, to_val, try_fails, How, Obs, Src, Tables, HK, P, V};
 use parking_lot::Mutex;
 use serde::{Deserialize, Serialize};
 use std::collections::{BTreeMap, HashMap};
@@ -12,7 +12,10 @@ use std::sync::Arc;
 use std::time::Duration;
 use swimos::agent::agent_lifecycle::HandlerContext;
 use swimos::agent::agent_model::AgentModel;
-use swimos::agent::event_handler::{BoxEventHandler, BoxHandlerAction, HandlerActionExt, Sequentially};
+use swimos::agent::event_handler::{
+    join, join3, BoxEventHandler, BoxHandlerAction, Either, EventHandlerError, HandlerActionExt, Sequentially,
+    TryHandlerActionExt,
+};
 use swimos::agent::lanes::{CommandLane, MapLane, ValueLane};
 use swimos::agent::{lifecycle, projections, AgentLaneModel};
 
@@ -49,6 +52,8 @@ pub enum Rec {
     Leave { lane: u8, kind: HK },
     Eff(u32),
     Got(Src, Obs),
+    /// What the continuation closure of an `and_then_contextual` read directly from the agent.
+    CtxGot(Src, Obs),
     /// Recorded immediately before the `suspend` step.
     Spawn(u16),
 }
@@ -66,6 +71,7 @@ impl Rec {
             Rec::Leave { .. } => "Leave",
             Rec::Eff(_) => "Eff",
             Rec::Got(..) => "Got",
+            Rec::CtxGot(..) => "CtxGot",
             Rec::Spawn(_) => "Spawn",
         }
     }
@@ -140,6 +146,95 @@ fn get(src: Src) -> BoxHandlerAction<'static, HAgent, Obs> {
     }
 }
 
+type Value = BoxHandlerAction<'static, HAgent, i64>;
+
+fn failure() -> EventHandlerError {
+    EventHandlerError::EffectError(Box::new(UserFailure))
+}
+
+/// Read a source directly from the agent (what an `and_then_contextual` closure can do).
+fn read_direct(agent: &HAgent, src: Src) -> Obs {
+    match src {
+        Src::Val(0) => Obs::V(agent.v0.read(|v| *v)),
+        Src::Val(_) => Obs::V(agent.v1.read(|v| *v)),
+        Src::Entry(1, k) => Obs::E(agent.m0.get(&k, |v| v.copied())),
+        Src::Entry(_, k) => Obs::E(agent.m1.get(&k, |v| v.copied())),
+        Src::Map(1) => Obs::M(agent.m0.get_map(sorted)),
+        Src::Map(_) => Obs::M(agent.m1.get_map(ordered)),
+    }
+}
+
+/// `first.and_then(k)` / `.and_then_contextual(k)` / `.and_then_try(k)` (fails when `try_fails(x)`).
+fn bind<T, K>(sh: &Arc<Shared>, first: Value, how: How, k: K) -> BoxHandlerAction<'static, HAgent, T>
+where
+    T: Send + 'static,
+    K: FnOnce(i64) -> BoxHandlerAction<'static, HAgent, T> + Send + 'static,
+{
+    match how {
+        How::Then => first.and_then(k).boxed(),
+        How::Ctx(src) => {
+            let sh = sh.clone();
+            first
+                .and_then_contextual(move |agent: &HAgent, x: i64| {
+                    sh.rec(Rec::CtxGot(src, read_direct(agent, src)));
+                    k(x)
+                })
+                .boxed()
+        }
+        How::Try => first
+            .and_then_try(move |x: i64| if try_fails(x) { Err(failure()) } else { Ok(k(x)) })
+            .boxed(),
+    }
+}
+
+/// AST -> value producing action.
+pub fn build_v(sh: &Arc<Shared>, v: &V) -> Value {
+    let ctx: Ctx = HandlerContext::default();
+    match v {
+        V::Get(src) => {
+            let (sh, src) = (sh.clone(), *src);
+            get(src)
+                .and_then(move |o: Obs| {
+                    let c: Ctx = HandlerContext::default();
+                    let x = o.scalar();
+                    c.effect(move || {
+                        sh.rec(Rec::Got(src, o));
+                        x
+                    })
+                })
+                .boxed()
+        }
+        V::Const(c) => ctx.value(*c as i64).boxed(),
+        V::After(p, v) => build(sh, p).followed_by(build_v(sh, v)).boxed(),
+        V::Of(p, c) => {
+            let c = *c as i64;
+            build(sh, p).map(move |_: ()| c).boxed()
+        }
+        V::Map(v, c) => {
+            let c = *c as i64;
+            build_v(sh, v).map(move |x: i64| x.wrapping_add(c)).boxed()
+        }
+        V::Bind { first, how, arms } => {
+            let (sh2, arms) = (sh.clone(), arms.clone());
+            bind(sh, build_v(sh, first), *how, move |x| build_v(&sh2, &arms[arm_of(x, arms.len())]))
+        }
+        V::Join(a, b) => join(build_v(sh, a), build_v(sh, b))
+            .map(|(x, y): (i64, i64)| x.wrapping_add(y))
+            .boxed(),
+        V::Join3(a, b, c) => join3(build_v(sh, a), build_v(sh, b), build_v(sh, c))
+            .map(|(x, y, z): (i64, i64, i64)| x.wrapping_add(y).wrapping_add(z))
+            .boxed(),
+        V::Opt(v) => {
+            let inner: Either<Value, Value> = Either::Left(build_v(sh, v));
+            HandlerActionExt::<HAgent>::map(Some(inner), |o: Option<i64>| o.unwrap_or(0)).boxed()
+        }
+        V::Try(v) => build_v(sh, v)
+            .map(|x: i64| if try_fails(x) { Err(UserFailure) } else { Ok(x) })
+            .try_handler()
+            .boxed(),
+    }
+}
+
 /// AST -> handler. Nothing is read from the agent while the handler is being built; all reads and
 /// writes happen in `step`.
 pub fn build(sh: &Arc<Shared>, p: &P) -> Handler {
@@ -158,24 +253,14 @@ pub fn build(sh: &Arc<Shared>, p: &P) -> Handler {
         P::Rem { k, .. } => ctx.remove(HAgent::M1, *k).boxed(),
         P::Clr { lane: 1 } => ctx.clear(HAgent::M0).boxed(),
         P::Clr { .. } => ctx.clear(HAgent::M1).boxed(),
-        P::Get { src } => {
-            let (sh, src) = (sh.clone(), *src);
-            get(src)
-                .and_then(move |o: Obs| {
-                    let c: Ctx = HandlerContext::default();
-                    c.effect(move || sh.rec(Rec::Got(src, o)))
-                })
-                .boxed()
+        P::Discard(v) => build_v(sh, v).discard().annotated("discard").boxed(),
+        P::Branch { first, how, arms } => {
+            let (sh2, arms) = (sh.clone(), arms.clone());
+            bind(sh, build_v(sh, first), *how, move |x| build(&sh2, &arms[arm_of(x, arms.len())]))
         }
-        P::Branch { src, arms } => {
-            let (sh, src, arms) = (sh.clone(), *src, arms.clone());
-            get(src)
-                .and_then(move |o: Obs| {
-                    let arm = &arms[o.scalar().rem_euclid(arms.len() as i64) as usize];
-                    let next = build(&sh, arm);
-                    eff(&sh, Rec::Got(src, o)).followed_by(next)
-                })
-                .boxed()
+        P::MutV { first, how, target, off } => {
+            let (sh2, target, off) = (sh.clone(), target.clone(), *off);
+            bind(sh, build_v(sh, first), *how, move |x| build(&sh2, &target.with_value(to_val(x, off))))
         }
         P::Eff(l) => eff(sh, Rec::Eff(*l)),
         P::Suspend { prog, delay_ms } => {
